@@ -6,10 +6,13 @@ package main
 // (the specification's *name* of a node is this term, by content addressing).
 
 import (
+	"bytes"
 	"encoding/binary"
+	"encoding/gob"
 	"encoding/json"
 	"errors"
 	"fmt"
+	"reflect"
 )
 
 type rawNode struct {
@@ -118,6 +121,7 @@ type term struct {
 var missingTerm = term{K: []int{-1}, V: []int{-1}, C: [][]term{{}, {}}}
 
 type projector struct {
+	gob bool // elements are gob-encoded (custom marshaler with registered types; binary node format only)
 	nf  string
 	kc  *keyCodec
 	vc  *valCodec
@@ -146,15 +150,47 @@ func (p *projector) node(name string) term {
 	}
 	t := term{K: []int{}, V: []int{}, C: [][]term{}}
 	for i := range rn.Keys {
-		t.K = append(t.K, p.kc.RankFromJSON(rn.Keys[i]))
+		t.K = append(t.K, p.keyRank(rn.Keys[i]))
 	}
 	for i := range rn.Vals {
-		t.V = append(t.V, p.vc.RankFromJSON(rn.Vals[i]))
+		t.V = append(t.V, p.valRank(rn.Vals[i]))
 	}
 	for _, l := range rn.Links {
 		t.C = append(t.C, p.kid(l))
 	}
 	return t
+}
+
+func gobMarshal(v interface{}) ([]byte, error) {
+	var buf bytes.Buffer
+	err := gob.NewEncoder(&buf).Encode(v)
+	return buf.Bytes(), err
+}
+
+func gobUnmarshal(b []byte, v interface{}) error {
+	return gob.NewDecoder(bytes.NewReader(b)).Decode(v)
+}
+
+func (p *projector) keyRank(raw []byte) int {
+	if !p.gob {
+		return p.kc.RankFromJSON(raw)
+	}
+	v := reflect.New(reflect.TypeOf(p.kc.zero))
+	if err := gobUnmarshal(raw, v.Interface()); err != nil {
+		return -1
+	}
+	return p.kc.Rank(v.Elem().Interface())
+}
+
+func (p *projector) valRank(raw []byte) int {
+	if !p.gob {
+		return p.vc.RankFromJSON(raw)
+	}
+	v := reflect.New(reflect.TypeOf(p.vc.zero))
+	if err := gobUnmarshal(raw, v.Interface()); err != nil {
+		return -1
+	}
+	return p.vc.Rank(v.Elem().Interface())
 }
 
 // reach returns the set of names reachable from a root link.
